@@ -57,6 +57,7 @@ def gen_pic_program(rnd):
     pos = sorted(rnd.sample(range(n + 1), len(labels)))
     stmts = [apm.link(apm.num(0o1000))]
     li = 0
+    nodata = rnd.random() < 0.35
 
     def diff():
         a, b = rnd.choice(labels), rnd.choice(labels)
@@ -79,7 +80,7 @@ def gen_pic_program(rnd):
             stmts.append(apm.insn(rnd.choice(["br", "bne", "beq", "bcc"]), ("br", ("sym", rnd.choice(near)))))
         elif r < 0.78 and near:
             stmts.append(apm.insn("sob", ("reg", rnd.randrange(6)), ("br", ("sym", near[0]))))
-        elif r < 0.9:
+        elif r < 0.9 and not nodata:
             stmts.append(apm.data(".word", diff(), apm.num(rnd.randrange(0x10000)), ("bin", "-", ("dot",), ("sym", rnd.choice(labels)))))
         else:
             stmts.append(apm.blk(".blkb", apm.num(2 * rnd.randrange(0, 6))))
@@ -228,6 +229,10 @@ def run_case(case, cnt=None, root=None, coef_set=None):
             size = len(o0.code)
             inside = 2 * srnd.randrange(1, max(2, size // 2)) if size > 4 else 2
             bases = [0o40000, 0o157776, 0o177776 - 2 * srnd.randrange(0, 8), (0o200000 - inside) & ~1, 0]
+            if not any(st.k in ("data", "wordlist") for st in prog.files[0].stmts):
+                # code without word data is just as position-independent at an odd base (only word DATA must be aligned)
+                bases += [0o1001, 0o157777, 0o40001]
+                cnt["pic_odd_bases"] = cnt.get("pic_odd_bases", 0) + 1
             cnt["pic_triples_compared"] = cnt.get("pic_triples_compared", 0) + 1
             for b in bases:
                 o, _t = meta.assemble_prog(with_base(prog, b), root)
